@@ -70,6 +70,51 @@ class Watchdog:
         return False
 
 
+class WorkBudget:
+    """Deterministic bound on the CPU work of a piece of synchronous code (bounded liveness without a
+    wall clock): counts function entries and jumps (every Python-level loop iteration ends in one)
+    through sys.monitoring and raises StepBudgetExceeded past `budget`.  Unlike a SIGALRM timeout
+    the verdict does not depend on machine load.  Loops inside C code (e.g. a regex that
+    backtracks forever) are not seen; the wall-clock Watchdog stays as the backstop for those."""
+
+    TOOL = 4
+
+    def __init__(self, budget, jumps=True):
+        self.budget = budget
+        self.jumps = jumps
+        self.n = 0
+
+    def __enter__(self):
+        mon = sys.monitoring
+        mon.use_tool_id(self.TOOL, "simverif-workbudget")
+        ev = mon.events
+
+        def on_start(code, offset):
+            self.n += 1
+            if self.n > self.budget:
+                mon.set_events(self.TOOL, 0)
+                raise StepBudgetExceeded("work budget of %d function entries + jumps exceeded" % self.budget)
+
+        def on_jump(code, offset, dest):
+            self.n += 1
+            if self.n > self.budget:
+                mon.set_events(self.TOOL, 0)
+                raise StepBudgetExceeded("work budget of %d function entries + jumps exceeded" % self.budget)
+
+        mon.register_callback(self.TOOL, ev.PY_START, on_start)
+        mon.register_callback(self.TOOL, ev.JUMP, on_jump)
+        mon.set_events(self.TOOL, ev.PY_START | (ev.JUMP if self.jumps else 0))
+        return self
+
+    def __exit__(self, *exc):
+        mon = sys.monitoring
+        mon.set_events(self.TOOL, 0)
+        mon.register_callback(self.TOOL, mon.events.PY_START, None)
+        mon.register_callback(self.TOOL, mon.events.JUMP, None)
+        mon.free_tool_id(self.TOOL)
+        return False
+
+
 def arm_faulthandler(seconds):
     """Dump all tracebacks if the process is still alive after `seconds` (hang diagnosis)."""
     faulthandler.enable(file=sys.stderr)
